@@ -19,6 +19,7 @@ from __future__ import annotations
 import ast
 
 from ..astutil import AnalysisError, dotted, src, walk_local, walk_ordered, calls_in, fail_closed, ends_in_raise
+from .. import pattern as P
 from ..rules import optable as ot
 from . import c03
 
@@ -54,7 +55,7 @@ def rule_transitions(run):
                            expected="<block>.addfront(_Transition(..))", found=src(par)[:70] if isinstance(par, ast.Call) else type(par).__name__)
     irr = run.idx.mod(IRR)
     af = irr.func("CodeBlock.addfront")
-    ok = any(isinstance(c.func, ast.Attribute) and c.func.attr == "insert" and src(c.args[0]) == "0" and dotted(c.func.value) == "self._content" for c in calls_in(af.node))
+    ok = any(isinstance(c.func, ast.Attribute) and c.func.attr == "insert" and P.T(c.args[0]) == "0" and dotted(c.func.value) == "self._content" for c in calls_in(af.node))
     run.ob(ok, "CodeBlock.addfront", file=irr.rel, line=af.node.lineno, detail="front", expected="self._content.insert(0, stmt)", found="ok" if ok else "changed")
     run.end()
 
@@ -79,10 +80,10 @@ def rule_states(run):
             run.ob(ok, "IrGenerator._apply_impl", file=gen.rel, line=c.lineno, detail=f"state#{n}", expected=f"ctx.add_state({var}) unconditionally in the same block", found="registered" if ok else "not registered on every path")
     irr = run.idx.mod(IRR)
     a = irr.func("StatemachineContext.add_state")
-    ok = "self._states.append(state)" in src(a.node)
+    ok = "self._states.append(state)" in P.T(a.node)
     run.ob(ok, "StatemachineContext.add_state", file=irr.rel, line=a.node.lineno, detail="append", expected="self._states.append(state)", found="ok" if ok else "changed")
     init = irr.func("StatemachineContext.__init__")
-    ok = "[self._first]" in src(init.node)
+    ok = "[self._first]" in P.T(init.node)
     run.ob(ok, "StatemachineContext.__init__", file=irr.rel, line=init.node.lineno, detail="first-registered", expected="the first state is registered at construction", found="ok" if ok else "changed")
     run.end()
 
@@ -100,13 +101,13 @@ def rule_edges(run):
     br = ot.find_branch(ai.node, ot.isinstance_test("inp", "out.While"))
     if br is None:
         raise AnalysisError("anchor vanished: out.While branch")
-    loops = [l for l in ast.walk(br) if isinstance(l, ast.For) and "self.apply(inp._body" in src(l.iter)]
-    ok = len(loops) == 1 and "open_blocks=[body]" in src(loops[0].iter) and any(isinstance(c, ast.Call) and isinstance(c.func, ast.Attribute) and c.func.attr == "addfront" and dotted(c.func.value) == loops[0].target.id and "ir._Transition(new_state)" in src(c) for c in ast.walk(loops[0]))
+    loops = [l for l in ast.walk(br) if isinstance(l, ast.For) and "self.apply(inp._body" in P.T(l.iter)]
+    ok = len(loops) == 1 and "open_blocks=[body]" in P.T(loops[0].iter) and any(isinstance(c, ast.Call) and isinstance(c.func, ast.Attribute) and c.func.attr == "addfront" and dotted(c.func.value) == loops[0].target.id and "ir._Transition(new_state)" in P.T(c) for c in ast.walk(loops[0]))
     run.ob(ok, "_apply_impl[out.While]", file=gen.rel, line=(loops[0].lineno if loops else br.lineno), detail="back-edge", expected="for open_body in self.apply(inp._body, open_blocks=[body]): open_body.addfront(_Transition(new_state))", found="ok" if ok else "changed")
     # loop entry from the blocks before the loop
-    entry = [l for l in ast.walk(br) if isinstance(l, ast.For) and dotted(l.iter) == "open_blocks" and "ir._Transition(new_state)" in src(l)]
+    entry = [l for l in ast.walk(br) if isinstance(l, ast.For) and dotted(l.iter) == "open_blocks" and "ir._Transition(new_state)" in P.T(l)]
     run.ob(len(entry) == 1, "_apply_impl[out.While]", file=gen.rel, line=br.lineno, detail="loop-entry", expected="every open block before the loop transitions to the loop head", found=f"{len(entry)} entry loop(s)")
-    t = src(br)
+    t = P.T(br)
     ok = "open_block.append(ir.If(inp._test.result(), body, orelse))" in t and "return [orelse, *ret_blocks]" in t and "ret_blocks.extend(break_result)" in t
     run.ob(ok, "_apply_impl[out.While]", file=gen.rel, line=br.lineno, detail="exit-blocks", expected="loop exits: the else of the condition and every break block", found="ok" if ok else "changed")
     ok = "continue_block.append(body)" in t and "block.append(ir.If(inp._test.result(), body, break_block))" in t
@@ -114,14 +115,14 @@ def rule_edges(run):
     irr = run.idx.mod(IRR)
     fin = irr.func("StatemachineContext.finish")
     loops = [l for l in fin.node.body if isinstance(l, ast.For) and dotted(l.iter) == "open_blocks"]
-    ok = len(loops) == 1 and f"{loops[0].target.id}.addfront(_Transition(ctx.first_state()))" in src(loops[0])
+    ok = len(loops) == 1 and f"{loops[0].target.id}.addfront(_Transition(ctx.first_state()))" in P.T(loops[0])
     run.ob(ok, "StatemachineContext.finish", file=irr.rel, line=fin.node.lineno, detail="restart-edge", expected="for open_block in open_blocks: open_block.addfront(_Transition(ctx.first_state()))", found="ok" if ok else "changed")
     if loops:
         ret = fin.node.body[-1]
-        ok = isinstance(ret, ast.Return) and src(ret.value) == "Statemachine(ctx)" and fin.node.body.index(loops[0]) < len(fin.node.body) - 1
+        ok = isinstance(ret, ast.Return) and P.T(ret.value) == "Statemachine(ctx)" and fin.node.body.index(loops[0]) < len(fin.node.body) - 1
         run.ob(ok, "StatemachineContext.finish", file=irr.rel, line=fin.node.lineno, detail="restart-before-build", expected="restart transitions are added before Statemachine(ctx) is built", found="ok" if ok else "changed")
     acw = irr.func("Statemachine.as_case_when")
-    t = src(acw.node)
+    t = P.T(acw.node)
     ok = "SignalAssignment(self._current_state, self._state_id[stmt._next_state]" in t and "for state in self._ctx._states:\n        state.visit(replace_transition)" in t.replace("            ", "        ")
     ok = ok or ("self._state_id[stmt._next_state]" in t and "state.visit(replace_transition)" in t)
     run.ob(ok, "Statemachine.as_case_when", file=irr.rel, line=acw.node.lineno, detail="transition-lowering", expected="_Transition(s) -> state signal <= id(s), applied to every state", found="ok" if ok else "changed")
@@ -172,12 +173,12 @@ def rule_loop_state(run):
             installs[dotted(a.targets[0])] = dotted(a.value)
     ok = installs.get("IrGenerator._continue_result") == "continue_result" and installs.get("IrGenerator._break_result") == "break_result"
     run.ob(ok, "_apply_impl[out.While]", file=gen.rel, line=br.lineno, detail="fresh-lists", expected="fresh continue/break lists installed for the loop body", found=str(installs))
-    t = src(br)
+    t = P.T(br)
     ok = "for continue_block in continue_result" in t and "ret_blocks.extend(break_result)" in t
     run.ob(ok, "_apply_impl[out.While]", file=gen.rel, line=br.lineno, detail="own-lists-consumed", expected="the loop consumes its own lists", found="ok" if ok else "changed")
     for cls, attr in (("out.Continue", "_continue_result"), ("out.Break", "_break_result")):
         b = ot.find_branch(ai.node, ot.isinstance_test("inp", cls))
-        ok = b is not None and f"IrGenerator.{attr}.extend(open_blocks)" in src(b) and src(b.body[-1]) == "return []"
+        ok = b is not None and f"IrGenerator.{attr}.extend(open_blocks)" in P.T(b) and P.T(b.body[-1]) == "return []"
         run.ob(ok, f"_apply_impl[{cls}]", file=gen.rel, line=(b.lineno if b else 0), detail="records", expected=f"IrGenerator.{attr}.extend(open_blocks); return []", found="ok" if ok else "changed")
     run.end()
 
@@ -195,7 +196,7 @@ def rule_clock_costs(run):
     wb = ot.find_branch(ai.node, lambda t: isinstance(t, ast.Call) and dotted(t.func) == "isinstance" and dotted(t.args[0]) == "inp" and dotted(t.args[1]) == "ast.While")
     if wb is None:
         raise AnalysisError("anchor vanished: ast.While handler")
-    fb = [s for s in wb.body if isinstance(s, ast.If) and src(s.test) == "test.result() is False"]
+    fb = [s for s in wb.body if isinstance(s, ast.If) and P.T(s.test) == "test.result() is False"]
     if not fb:
         raise AnalysisError("always-false while special case not found")
     ret = [r for r in fb[0].body if isinstance(r, ast.Return)]
@@ -203,7 +204,7 @@ def rule_clock_costs(run):
     prim = None
     if isinstance(c, ast.Call) and dotted(c.func) == "out.Await":
         prim = c.args[1] if len(c.args) > 1 else next((k.value for k in c.keywords if k.arg == "primitive"), None)
-    ok = isinstance(prim, ast.Constant) and prim.value is True and "cohdl_true" in src(c.args[0])
+    ok = isinstance(prim, ast.Constant) and prim.value is True and "cohdl_true" in P.T(c.args[0])
     run.ob(ok, "apply_impl[ast.While]", file=prep.rel, line=fb[0].lineno, detail="false-while-delay", expected="out.Await(out.Value(cohdl_true, []), primitive=True, ..): one clock delay", found=src(c)[:90] if c is not None else "missing")
     ta = prep.func("PrepareAst.apply_impl.<locals>.translate_await")
     awaits = [x for x in ast.walk(ta.node) if isinstance(x, ast.Call) and dotted(x.func) == "out.Await"]
@@ -216,32 +217,32 @@ def rule_clock_costs(run):
     run.ob(len(prim_ok) == 2 and len(sub_ok) == 1, "apply_impl.translate_await", file=prep.rel, line=ta.node.lineno, detail="primitive-flags", expected="awaiting a hardware value is primitive; awaiting a sub-coroutine is not", found=str(kinds))
     outm = run.idx.mod("cohdl/_compiler/frontend/_prepare_ast_out.py")
     ainit = outm.func("Await.__init__")
-    ok = "self._awaitable_primitive = primitive" in src(ainit.node)
+    ok = "self._awaitable_primitive = primitive" in P.T(ainit.node)
     run.ob(ok, "out.Await.__init__", file=outm.rel, line=ainit.node.lineno, detail="stores-flag", expected="self._awaitable_primitive = primitive", found="ok" if ok else "changed")
     gen = run.idx.mod(GEN)
     gi = gen.func("IrGenerator._apply_impl")
     ab = ot.find_branch(gi.node, ot.isinstance_test("inp", "out.Await"))
-    pb = [s for s in ab.body if isinstance(s, ast.If) and src(s.test) == "inp._awaitable_primitive"]
+    pb = [s for s in ab.body if isinstance(s, ast.If) and P.T(s.test) == "inp._awaitable_primitive"]
     if not pb:
         raise AnalysisError("primitive await branch not found")
-    sel = [s for s in pb[0].body if isinstance(s, ast.If) and src(s.test) == "ctx.at_start()"]
-    ok = bool(sel) and "new_state = ctx.first_state()" in src(sel[0].body[0]) and any("ir._State(" in src(s) for s in sel[0].orelse)
+    sel = [s for s in pb[0].body if isinstance(s, ast.If) and P.T(s.test) == "ctx.at_start()"]
+    ok = bool(sel) and "new_state = ctx.first_state()" in P.T(sel[0].body[0]) and any("ir._State(" in P.T(s) for s in sel[0].orelse)
     run.ob(ok, "_apply_impl[out.Await]", file=gen.rel, line=pb[0].lineno, detail="state-per-await", expected="at start: reuse the empty first state; otherwise a new state", found="ok" if ok else "changed")
-    t = src(pb[0])
+    t = P.T(pb[0])
     ok = "self.apply(inp.bound_statements(), open_blocks=[new_state.code()])" in " ".join(t.split()) and "return [new_state._open_block]" in t
     run.ob(ok, "_apply_impl[out.Await]", file=gen.rel, line=pb[0].lineno, detail="continues-in-new-state", expected="the condition is evaluated in, and execution continues from, the new state", found="ok" if ok else "changed")
     ok = "ir.If(" in t and "new_state.set_open_block(if_body)" in t
     run.ob(ok, "_apply_impl[out.Await]", file=gen.rel, line=pb[0].lineno, detail="poll", expected="new_state.append(ir.If(cond, if_body, <empty>)); continue in if_body (polls once per clock)", found="ok" if ok else "changed")
     irr = run.idx.mod(IRR)
     st = irr.func("StatemachineContext.at_start")
-    ok = src(st.node.body[-1]) == "return self._first.empty()"
+    ok = P.T(st.node.body[-1]) == "return self._first.empty()"
     run.ob(ok, "StatemachineContext.at_start", file=irr.rel, line=st.node.lineno, detail="at-start", expected="return self._first.empty()", found=src(st.node.body[-1]))
     em = irr.func("CodeBlock.empty")
     kinds = sorted({dotted(c.args[1]) for c in ast.walk(em.node) if isinstance(c, ast.Call) and dotted(c.func) == "isinstance"})
     run.ob(kinds == ["Comment"], "CodeBlock.empty", file=irr.rel, line=em.node.lineno, detail="what-counts-as-empty", expected="only Comment statements are ignored (a Nop marks a state as used)", found=str(kinds))
     wb2 = ot.find_branch(gi.node, ot.isinstance_test("inp", "out.While"))
-    sel = [s for s in wb2.body if isinstance(s, ast.If) and src(s.test) == "ctx.at_start()"]
-    ok = bool(sel) and "new_state.code().append(ir.Nop())" in src(sel[0])
+    sel = [s for s in wb2.body if isinstance(s, ast.If) and P.T(s.test) == "ctx.at_start()"]
+    ok = bool(sel) and "new_state.code().append(ir.Nop())" in P.T(sel[0])
     run.ob(ok, "_apply_impl[out.While]", file=gen.rel, line=(sel[0].lineno if sel else wb2.lineno), detail="marks-first-state-used", expected="a while at the start appends ir.Nop() to the first state", found="ok" if ok else "missing")
     run.end()
 
